@@ -165,6 +165,13 @@ def hash_probes(chk):
     pool["int01"] = pd.DataFrame({"x": [1, 0, 1]})
     pool["str1"] = pd.DataFrame({"x": ["1", "0", "1"]})
     pool["f01"] = pd.DataFrame({"x": [1.0, 0.0, 1.0]})
+    # identical values under column labels that differ only in where one label ends and the next begins (equal concatenation),
+    # in separators inside a label, and in the label's type: a key that folds the labels into a digest without delimiting them merges these
+    two = [[1, 2], [3, 4]]
+    for nm, labels in (("lab_ab_c", ["ab", "c"]), ("lab_a_bc", ["a", "bc"]), ("lab_abc_", ["abc", ""]), ("lab__abc", ["", "abc"]),
+                       ("lab_1_23", [1, 23]), ("lab_12_3", [12, 3]), ("lab_s1_s23", ["1", "23"]), ("lab_xcy_z", ["x, y", "z"]), ("lab_x_ycz", ["x", "y, z"]),
+                       ("lab_q", ["a'", "b"]), ("lab_q2", ["a", "'b"])):
+        pool[nm] = pd.DataFrame(two, columns=labels)
     n = 0
     for (a, fa), (b, fb) in itertools.combinations(sorted(pool.items()), 2):
         n += 1
@@ -189,7 +196,7 @@ def run(chk):
                                "pandas DataFrame.copy()/equals() semantics; correspondence harness harness/props/C25.py (frame identity = columns + dtypes + values)"]
     chk.assumptions = ["the caller only mutates frames it holds (theorem hypothesis well_behaved)", "data maps have unique string keys (Python dict)"]
     chk.cov["rule"] = ("random histories (2..14 quick / 2..40 thorough operations: new frame from a 14-frame pool differing in one value/column/shape/row order/dtype, in-place "
-                       "mutation, store, get, read) over 2 dialects x 3 SQL strings x data maps with 1-2 of 3 keys; plus all pairs of 18 probe frames for hash separation; "
+                       "mutation, store, get, read) over 2 dialects x 3 SQL strings x data maps with 1-2 of 3 keys; plus all pairs of 33 probe frames for hash separation (incl. 11 label-boundary frames: same values, labels with equal concatenation / separators inside / int vs str labels); "
                        "non-trivial = history with >=1 store and >=1 get; distinct by content")
     maxlen = 14 if chk.tier == "quick" else 40
     terms, meta = [], []
